@@ -11,6 +11,7 @@ from lib import msgs, sessions
 from lib.framework import Timeout, canon, exc_code
 from lib.sessions import C_EXT, C_SEARCH, CLIENT, DRAIN, RECV, SERVER
 from oracle import ber
+from props.c02 import chunkings
 from props.session_common import SessionProp
 
 def U(x):
@@ -157,9 +158,15 @@ def do_ext_call(s, call):
             return [0, s.search_request(filter=C["filter"](value="v"))]
         return [0, s.bind("cn=x", C["auth"](secret="s"))]
     if k == RECV:
-        ms = s.receive(call[1])
+        # one bytearray object per distinct chunk value and run: sessions that are fed "the same bytes" (a tee,
+        # a mirror, a registered and an unregistered session compared on one input) get the identical object
+        arg = SHARED.setdefault(bytes(call[1]), bytearray(call[1]))
+        ms = s.receive(arg)
         return [3, [render_msg(m) for m in ms]]
     return sessions.do_call(s, call)
+
+
+SHARED: dict = {}
 
 
 def outcome(s, call):
@@ -180,11 +187,13 @@ def outcome(s, call):
 
 
 def run_alone(role, calls):
+    SHARED.clear()
     s = sessions.new_session(role)
     return [[outcome(s, c), sessions.probe(s)] for c in calls]
 
 
 def run_interleaved(hists, order):
+    SHARED.clear()
     ss = [sessions.new_session(h["role"]) for h in hists]
     idx = [0] * len(hists)
     out = [[] for _ in hists]
@@ -262,7 +271,7 @@ class C19(SessionProp):
     rule = (
         "seeded pairs of session histories (client/server in any combination): plain histories of the C08 generator and "
         "histories that register custom control (two different OIDs), filter and credential types (incl. duplicates of the same class, a different class for a taken id, and classes colliding with built-in ids) "
-        "and then send / receive messages carrying those types; the two are run interleaved (random merge order) in "
+        "and then send / receive messages carrying those types; 15% tees (two sessions of one role handed the identical bytearray objects holding the chunks of one stream); the two are run interleaved (random merge order) in "
         "one process and each alone on fresh sessions; transcripts (outcome, state, pending bytes after every call) "
         "must be identical; plain histories are also replayed on two independent instances of the extracted model; "
         "non-trivial = both histories have 2+ calls"
@@ -274,7 +283,21 @@ class C19(SessionProp):
     def generate(self, rng, n, tier):
         out = []
         for _ in range(n):
-            if rng.random() < 0.5:
+            r0 = rng.random()
+            if r0 < 0.15:
+                # a tee: two sessions of one role are handed the same chunks of one well-formed stream
+                role = rng.randint(0, 1)
+                k = rng.randint(1, 4)
+                pre = [[sessions.C_EXT, b"1.2.3", [], []] for _ in range(k)] if role == 0 else []
+                ms = [[i, msgs.g_op(rng, 8 if role == 0 else rng.choice([3, 7]), depth=1), []] for i in range(1, k + 1)]
+                for m in ms:
+                    if m[1][0] == 8:
+                        m[1][2] = []
+                chunks = chunkings(rng, b"".join(msgs.pack(m) for m in ms))
+                h = {"role": role, "calls": pre + [[RECV, ch] for ch in chunks]}
+                hs = [h, copy.deepcopy(h)]
+                plain = True
+            elif r0 < 0.55:
                 hs = [sessions.gen_history(rng), sessions.gen_history(rng)]
                 for h in hs:
                     h.pop("meta", None)
